@@ -1,6 +1,7 @@
 #!/usr/bin/env python3
 """Re-run, for every seeded change, the checks that are recorded as catching it (quick tier) against a scratch worktree with
-the change applied, and report the ones that are no longer caught. Usage: tools/recheck_seeded.py [id-prefix ...]"""
+the change applied, and report the ones that are no longer caught. Usage: tools/recheck_seeded.py [id-prefix | id= ...]
+(an argument ending in "=" names exactly one change)"""
 import json, glob, os, subprocess, sys, time
 
 ENV = dict(os.environ, GOFLAGS="-mod=mod", GOPROXY="off", GOSUMDB="off")
@@ -17,7 +18,7 @@ def main():
     for mp in sorted(glob.glob("/verif/seeded/*/meta.json")):
         m = json.load(open(mp))
         sid = m["id"]
-        if pre and not any(sid.startswith(x) for x in pre):
+        if pre and not any(sid.startswith(x) or (x.endswith("=") and sid == x[:-1]) for x in pre):
             continue
         want = [k.split()[0] for k, v in m["checks"].items() if v.get("caught")]
         if not want:
